@@ -67,6 +67,47 @@ def step_gen():
     return rc == 0, out
 
 
+def gen_failures_for(gen_out, rel_files):
+    """Which translator failures concern this property: the failed modules whose output files are in the
+    import closure of the property's Coq files (unknown outputs => charged to everyone: fail closed)."""
+    failed = re.findall(r'^gen: FAILED (\S+)', gen_out, re.M)
+    if not failed:
+        return ['translator run failed']          # crashed before reporting: fail closed
+    try:
+        owners = json.loads((COQ / 'Gen' / '.owners.json').read_text())
+    except Exception:
+        owners = {}
+    closure = import_closure(rel_files)
+    out = []
+    for m in failed:
+        files = owners.get(m)
+        if files is None or any(('Gen/' + f) in closure for f in files):
+            out.append(m)
+    return out
+
+
+def import_closure(rel_files):
+    """transitive `From PV Require Import/Export X.Y` closure, as paths relative to coq/"""
+    seen = set()
+    todo = list(rel_files)
+    while todo:
+        f = todo.pop()
+        if f in seen:
+            continue
+        seen.add(f)
+        p = COQ / f
+        if not p.exists():
+            continue
+        text = strip_comments(p.read_text())
+        for m in re.finditer(r'From\s+%s\s+Require\s+(?:Import|Export)?(.*?)\.(?=\s)' % LIBNAME, text, re.S):
+            for name in m.group(1).split():
+                if re.match(r'^[A-Za-z_][\w.]*$', name):
+                    todo.append(name.replace('.', '/') + '.v')
+        for m in re.finditer(r'Require\s+(?:Import|Export)?\s+%s\.([\w.]+)' % LIBNAME, text):
+            todo.append(m.group(1).replace('.', '/') + '.v')
+    return seen
+
+
 # ---------------------------------------------------------------- audit
 def _in_section_ranges(text):
     """character ranges that are inside Section ... End blocks"""
@@ -443,7 +484,12 @@ def _main_check(prop, cfg, tier, seed, replay=None):
 
     ok_gen, gen_out = step_gen()
     if not ok_gen:
-        log('gen failed:\n' + gen_out[-3000:])
+        mine = gen_failures_for(gen_out, [cfg['props'], cfg['driver']])
+        if mine:
+            log('gen failed (%s):\n' % ', '.join(mine) + gen_out[-3000:])
+        else:
+            log('gen: a translator module failed, but none whose output this property imports')
+            ok_gen = True
     audit_hits = step_audit()
 
     targets = [cfg['props'][:-2] + '.vo', cfg['driver'][:-2] + '.vo']
